@@ -220,6 +220,7 @@ type zipkinNDDecoderV2 struct {
 
 func (z *zipkinNDDecoderV2) Decode() error {
 	scanner := bufio.NewScanner(z.ctx.bodyReader)
+	scanner.Buffer(make([]byte, 0, 64*1024), 32*1024*1024)
 	scanner.Split(bufio.ScanLines)
 	for scanner.Scan() {
 		z.traceId = nil
@@ -236,6 +237,9 @@ func (z *zipkinNDDecoderV2) Decode() error {
 		if err != nil {
 			return custom_errors.NewUnmarshalError(err)
 		}
+	}
+	if err := scanner.Err(); err != nil {
+		return custom_errors.NewUnmarshalError(err)
 	}
 	return nil
 }
